@@ -22,6 +22,18 @@ CHECKS = {
     },
 }
 
+CHECKS['C12'] = {
+    'category': 'other',
+    'text': 'Exhaustive abstract interpretation: the classifier and the four dispatchers touch operand shapes only through equalities '
+            'among {r1,c1,r2,c2,1}; all 52 set partitions are enumerated and for each the outcome (value/panic) and the symbolic result '
+            'shape must equal the NumPy rule. Operand order and operation of every value-returning arm and of the 32 promoted '
+            'Matrix/Vector forms are decided with the element abstraction. The per-arm index pairing beyond operand order is not decided.',
+    'design_ref': 'DESIGN.md 4.12, 3 (E-ABS equality partitions, E-WIRE)',
+    'note': 'Assumes every dimension is >= 1 (the only order fact used: 0 < dim); loops are skipped during path exploration, so panics '
+            'that can only arise from element indexing inside an arm are outside D1. Trusted: Matrix::new(d,r,c) has shape (r,c) or panics (C15).',
+    'technique': 'finite abstract domain (equality partitions) enumerated exhaustively over MIR paths + element abstraction',
+}
+
 NOT_APPLICABLE = {
     'C09': 'accuracy of the Lanczos/asymptotic/Abramowitz-Stegun approximations over a continuum of arguments is a numerical '
            'quantity; no structural clause is a necessary condition without freezing coefficient tables (a brittle proxy); see DESIGN.md 4.9',
